@@ -368,8 +368,13 @@ def edit_histories(ctx, which, quick_n):
                 if line not in seen:
                     seen.add(line)
                     allscripts.append(line)
-        step = max(1, len(allscripts) // budget)
-        kept = allscripts[::step]
+        # the scripts of the two small deterministic families (modules with a ref.func'd exported function, duplicate import
+        # names) are always replayed, whatever the sample of the rest: the recorded findings live there
+        pinned = [l for l in allscripts if '\\"id\\":\\"reffuncexp-' in l or '\\"id\\":\\"dupimp-' in l]
+        pinset = set(pinned)
+        rest = [l for l in allscripts if l not in pinset]
+        step = max(1, len(rest) // budget)
+        kept = pinned[:4000] + rest[::step]
         out.writelines(kept)
     ctx.notes["edit_scripts_generated"] = len(allscripts)
     ctx.notes["edit_scripts_replayed"] = len(kept)
